@@ -81,4 +81,33 @@ REFACTORS = [
     # S22: accept(): signature result matched
     ("s22", R + "cob/identity.rs", "        if current\n            .verify_signature(&author, &signature, self.blob)\n            .is_err()\n        {\n            return Err(ApplyError::InvalidSignature(author, self.blob));\n        }\n        if self",
      "        match current.verify_signature(&author, &signature, self.blob) {\n            Ok(()) => {}\n            Err(_) => return Err(ApplyError::InvalidSignature(author, self.blob)),\n        }\n        if self", 1),
+    # S23: let-else on the merging delegate's head written as a match
+    ("s23", R + "cob/patch.rs", "                        let Ok(head) = repo.reference_oid(&author, &branch) else {\n                            return Ok(());\n                        };",
+     "                        let head = match repo.reference_oid(&author, &branch) {\n                            Ok(head) => head,\n                            Err(_) => return Ok(()),\n                        };", 1),
+    # S24: the quorum-lost reset written with `if let`
+    ("s24", R + "cob/patch.rs", "                        if matches!(self.state, State::Merged { .. }) {\n                            self.state = State::Open { conflicts: vec![] };\n                        }",
+     "                        if let State::Merged { .. } = self.state {\n                            self.state = State::Open { conflicts: vec![] };\n                        }", 1),
+    # S25: issue Cache::remove with if-let instead of match
+    ("s25", R + "cob/issue/cache.rs", "        match self.store.get(id)? {\n            Some(object) => {\n                self.update(&self.rid(), id, &object)\n                    .map_err(|e| super::Error::CacheUpdate {\n                        id: *id,\n                        err: e.into(),\n                    })?;\n            }\n            None => {\n                self.cache\n                    .remove(id)\n                    .map_err(|e| super::Error::CacheRemove {\n                        id: *id,\n                        err: e.into(),\n                    })?;\n            }\n        }",
+     "        if let Some(object) = self.store.get(id)? {\n            self.update(&self.rid(), id, &object)\n                .map_err(|e| super::Error::CacheUpdate {\n                    id: *id,\n                    err: e.into(),\n                })?;\n        } else {\n            self.cache\n                .remove(id)\n                .map_err(|e| super::Error::CacheRemove {\n                    id: *id,\n                    err: e.into(),\n                })?;\n        }", 1),
+    # S26: is_authorized without the intermediate `policy` local
+    ("s26", N + "worker.rs", "        let policy = self.policies.seed_policy(&rid)?.policy;\n        // Check policy first, since if we're blocking then we likely don't have\n        // the repository.\n        if policy.is_block() {",
+     "        // Check policy first, since if we're blocking then we likely don't have\n        // the repository.\n        if self.policies.seed_policy(&rid)?.policy.is_block() {", 1),
+    # S27: Comment::author through a destructuring pattern
+    ("s27", R + "cob/thread.rs", "    pub fn author(&self) -> ActorId {\n        self.author\n    }",
+     "    pub fn author(&self) -> ActorId {\n        let Self { author, .. } = self;\n        *author\n    }", 1),
+    # S28: Config::is_seeding with `?` instead of map
+    ("s28", R + "node/policy/config.rs", "        self.seed_policy(rid).map(|entry| entry.policy.is_allow())",
+     "        let entry = self.seed_policy(rid)?;\n        Ok(entry.policy.is_allow())", 1),
+    # S29: threshold comparison with the operands swapped
+    ("s29", R + "cob/patch.rs", "                merges.retain(|_, count| *count >= identity.threshold());",
+     "                merges.retain(|_, count| identity.threshold() <= *count);", 1),
+    # S30: issue upsert, same statement laid out differently
+    ("s30", R + "cob/issue/cache.rs", "             ON CONFLICT DO UPDATE\n             SET issue = (?3)\",", "             ON CONFLICT DO UPDATE SET issue = ?3\",", 1),
+    # S31: ancestry test nested instead of `&&`
+    ("s31", R + "cob/patch.rs", "                        if commit != head && !repo.is_ancestor_of(commit, head)? {\n                            return Ok(());\n                        }",
+     "                        if commit != head {\n                            if !repo.is_ancestor_of(commit, head)? {\n                                return Ok(());\n                            }\n                        }", 1),
+    # S32: worklist loop of ChangeGraph::load written as loop + let-else
+    ("s32", "crates/radicle-cob/src/change_graph.rs", "        while let Some(child_id) = child_ids.pop() {\n            // Skip if we already processed this node.",
+     "        loop {\n            let Some(child_id) = child_ids.pop() else {\n                break;\n            };\n            // Skip if we already processed this node.", 1),
 ]
